@@ -91,4 +91,51 @@ def dstep (cfg : Cfg) (d : Dir) : DOp → Dir
   | .save x mo => fullSave cfg d x mo
   | .crash x mo k torn => crashSave cfg d x mo k torn
 
+/-! ### `save` with an arbitrary plan of effects
+
+`saveSteps` fixes one order of the effects between the removal and the re-creation of the sentinel.  The property does
+not depend on that order, so the harness may also hand the model the plan it *traced* from the real `save` (per
+object and `save_mesh_only`): any list `mid` of effects accepted by the executable test `GoodMid`. -/
+
+def touchesSentinel : Step → Bool
+  | .write .sentinel _ => true
+  | .remove .sentinel => true
+  | _ => false
+
+/-- remove the sentinel, do `mid`, create the sentinel -/
+def wrap (mid : List Step) (t : Nat) : List Step := .remove .sentinel :: (mid ++ [.write .sentinel t])
+
+def allTorn : Dir := fun _ => some .torn
+def dataFiles : List File := [.nodes, .elements, .nodal, .elemental, .constraints, .settings]
+
+/-- `mid` never touches the sentinel and, started on a directory in which every data file is garbage, leaves exactly
+the data files of a complete save of `x` -/
+def GoodMid (mid : List Step) (x : Obj) (mo : Bool) : Bool :=
+  mid.all (fun s => !touchesSentinel s) &&
+  dataFiles.all (fun f => decide ((mid.foldl Step.apply allTorn) f = expected x mo f))
+
+/-- a step list interrupted after `k` effects; with `torn` the next effect's file is left half-written -/
+def crashSteps (steps : List Step) (d : Dir) (k : Nat) (torn : Bool) : Dir :=
+  let d' := (steps.take k).foldl Step.apply d
+  if torn then (match steps[k]? with | some s => s.tear d' | none => d') else d'
+
+inductive GOp
+  | read (src : Obj) (mid : List Step)
+  | save (x : Obj) (meshOnly : Bool) (mid : List Step)
+  | crash (x : Obj) (meshOnly : Bool) (mid : List Step) (k : Nat) (torn : Bool)
+deriving Repr, DecidableEq
+
+def GOp.good : GOp → Bool
+  | .read src mid => GoodMid mid src false
+  | .save x mo mid => GoodMid mid x mo
+  | .crash x mo mid _ _ => GoodMid mid x mo
+
+def readDirG (d : Dir) (src : Obj) (mid : List Step) : Dir × Dir :=
+  if (d .sentinel).isSome then (d, d) else (expected src false, (wrap mid src.tag).foldl Step.apply d)
+
+def gstep (d : Dir) : GOp → Dir
+  | .read src mid => (readDirG d src mid).2
+  | .save x _ mid => (wrap mid x.tag).foldl Step.apply d
+  | .crash x _ mid k torn => crashSteps (wrap mid x.tag) d k torn
+
 end Femio.C05
